@@ -26,8 +26,8 @@ M = [
  ("C09","blockwith-no-restore","helper_context.go",'	defer func() { h.compiler.ctx = octx }()\n','	_ = octx\n'),
  ("C10","alias-parent-map","context.go",'	cc := NewContextWithOuter(map[string]interface{}{}, c)','	cc := NewContextWithOuter(c.data, c)'),
  ("C10","helper-overrides-user","context.go",'		if !c.Has(k) {\n			c.Set(k, v)\n		}','		c.Set(k, v)'),
- ("C10","value-skips-local","context.go",'		if v, ok := c.data[s]; ok {\n			return v\n		}\n		if c.outer != nil {','		if c.outer != nil {'),
- ("C13","evaluator-writes-ast","compiler.go",'	octx := c.ctx.(*Context)\n	defer func() {\n		c.ctx = octx\n	}()\n\n	c.ctx = octx.New()\n	// must copy all data from original (it includes application defined helpers)\n	for k, v := range octx.data {\n		c.ctx.Set(k, v)\n	}\n\n	iter, err := c.evalExpression(node.Iterable)','	octx := c.ctx.(*Context)\n	defer func() {\n		c.ctx = octx\n	}()\n\n	c.ctx = octx.New()\n	// must copy all data from original (it includes application defined helpers)\n	for k, v := range octx.data {\n		c.ctx.Set(k, v)\n	}\n	node.KeyName = "k"\n\n	iter, err := c.evalExpression(node.Iterable)'),
+ ("C10","value-skips-local","context.go",'		if ok {\n			return v\n		}\n		if c.outer != nil {','		if ok && c.outer == nil {\n			return v\n		}\n		if c.outer != nil {'),
+ ("C13","evaluator-writes-ast","compiler.go",'	iter, err := c.evalExpression(node.Iterable)\n	if err != nil {\n		return nil, err\n	}\n\n	riter := reflect.ValueOf(iter)','	node.KeyName = "k"\n	iter, err := c.evalExpression(node.Iterable)\n	if err != nil {\n		return nil, err\n	}\n\n	riter := reflect.ValueOf(iter)'),
  ("C13","clone-drops-program","template.go",'		program: t.program,\n	}\n	return t2','		program: nil,\n	}\n	return t2'),
  ("C13","cache-by-length","plush.go",'	t, ok := cache[input]\n	if ok {\n		return t, nil\n	}','	t, ok := cache[input[:len(input)/2]]\n	if ok {\n		return t, nil\n	}'),
  ("C19","ranger-off-by-one","helpers/iterators/range.go",'	if r.done || r.pos > r.end {','	if r.done || r.pos >= r.end {'),
@@ -37,6 +37,18 @@ M = [
  ("C20","truncate-plus-one","helpers/text/truncate.go",'	keep := size - len(runesTrail)','	keep := size - len(runesTrail) + 1'),
  ("C20","truncate-assert","helpers/text/truncate.go",'	size, ok := opts["size"].(int)\n	if !ok {\n		size = 50\n	}','	size := 50\n	if opts["size"] != nil {\n		size = opts["size"].(int)\n	}'),
  ("C20","raw-trims","helpers/encoders/raw.go",'	return template.HTML(s)','	return template.HTML(s + "")[0:len(s)/2*2]'),
+ ("C02","readhtml-no-unescape","lexer/lexer.go",'	return strings.Replace(l.input[position:l.position], "\\\\<%", "<%", -1)','	return l.input[position:l.position]'),
+ ("C02","string-keeps-escape","lexer/lexer.go",'	s := l.input[position:l.position]\n	return strings.Replace(s, "\\\\\\"", "\\"", -1)','	s := l.input[position:l.position]\n	return s'),
+ ("C02","nul-ends-text","lexer/lexer.go",'	position := l.position\n\n	for !l.atEOF() {','	position := l.position\n\n	for l.ch != 0 {'),
+ ("C08","iter-key-constant","compiler.go",'				ii = it.Next()\n				i++','				ii = it.Next()'),
+ ("C08","slice-skips-last","compiler.go",'		for i := 0; i < riter.Len(); i++ {\n			v := riter.Index(i)\n			c.ctx.Set(node.KeyName, i)','		for i := 0; i < riter.Len()-1; i++ {\n			v := riter.Index(i)\n			c.ctx.Set(node.KeyName, i)'),
+ ("C08","slice-key-off","compiler.go",'			v := riter.Index(i)\n			c.ctx.Set(node.KeyName, i)','			v := riter.Index(i)\n			c.ctx.Set(node.KeyName, i+1)'),
+ ("C12","first-result-wrong","compiler.go",'		return res[0].Interface(), nil\n	}\n\n	return nil, nil','		return res[len(res)-1].Interface(), nil\n	}\n\n	return nil, nil'),
+ ("C14","set-unlocked","context.go",'	c.moot.Lock()\n	defer c.moot.Unlock()\n\n	c.data[key] = value','	c.data[key] = value'),
+ ("C14","value-unlocked","context.go",'		c.moot.Lock()\n		v, ok := c.data[s]\n		c.moot.Unlock()','		v, ok := c.data[s]'),
+ ("C15","stamp-after-token","lexer/lexer.go",'	// every token is stamped with the line on which it begins\n	line := l.curLine\n','	line := 0\n	defer func() { _ = line }()\n'),
+ ("C13","newtemplate-keeps-partial","template.go",'	program, err := parser.Parse(t.Input)\n	if err != nil {\n		return err\n	}\n\n	t.program = program\n	return nil','	program, err := parser.Parse(t.Input)\n	t.program = program\n	return err'),
+ ("C18","comment-skips-one","parser/parser.go",'	for p.curToken.Type != token.E_END && p.curToken.Type != token.EOF {\n		p.nextToken()\n	}\n\n	return &ast.StringLiteral{TokenAble: ast.TokenAble{Token: p.curToken}, Value: ""}','	for p.curToken.Type != token.E_END && p.curToken.Type != token.EOF {\n		p.nextToken()\n	}\n	p.nextToken()\n\n	return &ast.StringLiteral{TokenAble: ast.TokenAble{Token: p.curToken}, Value: ""}'),
 ]
 def main():
     only = sys.argv[1:] 
